@@ -468,6 +468,9 @@ static uint64_t drawBoot(Rng& rng) {
   }
 }
 
+// the backup clock's value: any time, or (an RTC that lost power) the invalid sentinel
+static int64_t drawRtcValue(Rng& rng);
+
 static int64_t drawSetValue(Rng& rng) {
   switch (rng.below(5)) {
     case 0: return (int64_t)rng.below(1000);
@@ -477,13 +480,34 @@ static int64_t drawSetValue(Rng& rng) {
   }
 }
 
+static int64_t drawRtcValue(Rng& rng) {
+  return rng.chance(1, 6) ? (int64_t)kInvalid : drawSetValue(rng);
+}
+
+// a new setting that stands in a special relation to the value the clock shows (about `cur`): +-1, +- a power
+// of two, +- a multiple of 65536 s, +- an hour / a day (narrowing, sign and wrap slips in "is it unchanged?" tests)
+static int64_t drawRelatedValue(Rng& rng, int64_t cur) {
+  int64_t d;
+  switch (rng.below(5)) {
+    case 0: d = rng.range(1, 3); break;
+    case 1: d = (int64_t)1 << rng.range(1, 30); break;
+    case 2: d = 65536 * rng.range(1, 300); break;
+    case 3: d = rng.chance(1, 2) ? 3600 : 86400; break;
+    default: d = 32768 * rng.range(1, 5) + rng.range(-1, 1); break;
+  }
+  int64_t v = rng.chance(1, 2) ? cur + d : cur - d;
+  if (v > 2147483647LL - 20000000) v = cur - d;
+  if (v < -2147483647LL + 1000) v = cur + d;
+  return v;
+}
+
 Trace genClockKeep(uint64_t seed) {
   Rng rng(seed);
   Trace tr; tr.profile = "clock-keep";
   uint64_t boot = drawBoot(rng);
   bool bak = rng.chance(1, 2);
   tr.lines.push_back(fmt("CFG CLOCK ref=none bak=%d boot=%llu testable=1 rtc=%lld", bak ? 1 : 0,
-      (unsigned long long)boot, (long long)drawSetValue(rng)));
+      (unsigned long long)boot, (long long)drawRtcValue(rng)));
   // swarm: which gap kinds / faults this run uses
   bool faultFree = rng.chance(3, 10);
   bool allowStall = !faultFree && rng.chance(1, 2);
@@ -529,7 +553,8 @@ Trace genClockKeep(uint64_t seed) {
         // the value the clock shows now, or showed at the last poll, give or take
         v = cur + sinceSet / 1000 + rng.range(-1, 1);
         if (rng.chance(1, 2)) v = cur + rng.range(0, 1);
-      } else v = drawSetValue(rng);
+      } else if (isSet && k >= 8) v = drawRelatedValue(rng, cur + sinceSet / 1000);
+      else v = drawSetValue(rng);
       if (allowSame && isSet && rng.chance(1, 3)) {
         // bias: a long un-polled gap with a non-zero sub-second phase right before the set
         int64_t d = rng.range(1001, 64000);
@@ -541,9 +566,10 @@ Trace genClockKeep(uint64_t seed) {
       if (v != kInvalid) { cur = v; sinceSet = 0; isSet = true; }
       if (rng.chance(1, 2)) tr.lines.push_back("GET");
     } else if (r < 98) {
-      tr.lines.push_back(fmt("RTC %lld", (long long)drawSetValue(rng)));
+      tr.lines.push_back(fmt("RTC %lld", (long long)drawRtcValue(rng)));
     } else if (r < 99) {
       tr.lines.push_back("SETUP");
+      if (rng.chance(1, 4)) tr.lines.push_back("SETUP");
       if (bak) { isSet = true; sinceSet = 0; }
     } else {
       tr.lines.push_back(fmt("REBOOT boot=%llu", (unsigned long long)drawBoot(rng)));
@@ -575,10 +601,11 @@ Trace genClockSync(uint64_t seed) {
   const char* refArr = ra < 1 ? "none" : (ra < 7 ? "distinct" : "same");
   bool bak = rng.chance(4, 5);
   uint64_t boot = drawBoot(rng);
+  const int64_t refBase0 = 600000000 + (int64_t)rng.below(100000000);
   tr.lines.push_back(fmt("CFG CLOCK sync=%u init=%u tmo=%u ref=%s bak=%d boot=%llu testable=%d stats=%d "
       "refbase=%lld rtc=%lld", syncP, initP, tmo, refArr, bak ? 1 : 0, (unsigned long long)boot,
-      testable ? 1 : 0, rng.chance(1, 4) ? 1 : 0, (long long)(600000000 + rng.below(100000000)),
-      (long long)drawSetValue(rng)));
+      testable ? 1 : 0, rng.chance(1, 4) ? 1 : 0, (long long)refBase0,
+      (long long)drawRtcValue(rng)));
 
   // swarm: enabled fault kinds and rates
   bool faultFree = rng.chance(3, 10);
@@ -600,7 +627,7 @@ Trace genClockSync(uint64_t seed) {
     else if ((w -= wLost) < wLate) tr.lines.push_back(fmt("REF %d VALID lat=%lld val=%lld", k,
         (long long)(tmo + rng.range(1, 3000)), (long long)rng.range(-3, 3)));
     else if ((w -= wLate) < wJump) tr.lines.push_back(fmt("REF %d ABS lat=%lld val=%lld", k,
-        (long long)rng.range(0, 50), (long long)drawSetValue(rng)));
+        (long long)rng.range(0, 50), (long long)(rng.chance(1, 2) ? drawRelatedValue(rng, refBase0) : drawSetValue(rng))));
     else if ((w -= wJump) < wSame) tr.lines.push_back(fmt("REF %d SAME lat=%lld", k, (long long)rng.range(0, 50)));
     else if ((w -= wSame) < wInstant) tr.lines.push_back(fmt("REF %d VALID lat=0 val=%lld", k, (long long)rng.range(-1, 1)));
     else if ((w -= wInstant) < wStale) tr.lines.push_back(fmt("REF %d STALE", k));
@@ -621,9 +648,10 @@ Trace genClockSync(uint64_t seed) {
         : (rng.chance(1, 2) ? rng.range(1, 1500) : rng.range(1000, 40000)))));
     else if (r < 82) tr.lines.push_back(fmt("ADV %lld", (long long)rng.range(20000, 70000)));
     else if (r < 91) tr.lines.push_back("GET");
-    else if (r < 96) tr.lines.push_back(fmt("SET %lld", (long long)(rng.chance(1, 8) ? (int64_t)kInvalid : drawSetValue(rng))));
-    else if (r < 97) tr.lines.push_back("SETUP");
-    else if (r < 98) tr.lines.push_back(fmt("RTC %lld", (long long)drawSetValue(rng)));
+    else if (r < 96) tr.lines.push_back(fmt("SET %lld", (long long)(rng.chance(1, 8) ? (int64_t)kInvalid
+        : (rng.chance(1, 4) ? drawRelatedValue(rng, refBase0) : drawSetValue(rng)))));
+    else if (r < 97) { tr.lines.push_back("SETUP"); if (rng.chance(1, 3)) tr.lines.push_back("SETUP"); }
+    else if (r < 98) tr.lines.push_back(fmt("RTC %lld", (long long)drawRtcValue(rng)));
     else if (r < 99) {
       tr.lines.push_back(fmt("REBOOT boot=%llu", (unsigned long long)drawBoot(rng)));
       if (rng.chance(2, 3)) tr.lines.push_back("SETUP");
